@@ -17,6 +17,12 @@ def gen(seed, tier, out):
 EXPECTED_ORDER = ["ProcessTx", "AddMerkleProof", "AddHash", "wasCancelled", "FinalizeMerkleProofs", "Verify", "wasCancelled",
                   "ProcessCoinbaseTx", "ConfirmTx", "AppendBlockTxIDs"]
 
+def gen_mgr(seed, tier, out):
+    n = 60 if tier == "quick" else 1200
+    with open(out, "w") as f:
+        subprocess.run([str(brv.BIN / "blkmgr"), "gen", str(seed + 19), str(n), tier], stdout=f, check=True)
+
+
 def gen_dl(seed, tier, out):
     n = 200 if tier == "quick" else 4000
     with open(out, "w") as f:
@@ -26,13 +32,16 @@ def gen_dl(seed, tier, out):
 SPEC = Spec(
     prop="C04",
     title="Block confirmations are issued only for fully verified blocks, with valid proofs",
-    go_bins=["merkle", "blkdl"],
-    lean_targets=["BRV.Props.C04", "drv_merkle", "drv_blkdl"],
+    go_bins=["merkle", "blkdl", "blkmgr"],
+    lean_targets=["BRV.Props.C04", "drv_merkle", "drv_blkdl", "drv_blkmgr"],
     props_files=[brv.LEAN / "BRV/Props/C04.lean"],
     streams=[Stream("merkle", "merkle", "drv_merkle", gen, monitor=mon.monitor, nontrivial=mon.nontrivial),
              # the downloader with its Run loop, Cancel and Stop (C16's blkdl stream, a smaller sample): a cancel that
              # reaches a started download must still keep it from confirming ("no confirmation after cancellation")
-             Stream("blkdl", "blkdl", "drv_blkdl", gen_dl, monitor=mon_dl.monitor, nontrivial=mon_dl.nontrivial, timeout=900)],
+             Stream("blkdl", "blkdl", "drv_blkdl", gen_dl, monitor=mon_dl.monitor, nontrivial=mon_dl.nontrivial, timeout=900),
+             # several downloads of one block under the real manager: a download that is still registered and was never
+             # cancelled when its block completed goes on to confirm the block a second time ("once each")
+             Stream("blkmgr", "blkmgr", "drv_blkmgr", gen_mgr, monitor=mon_dl.monitor_mgr, nontrivial=mon_dl.nontrivial_mgr, timeout=900)],
     rule="real NewBlockDownloader+HandleBlock fed from a channel with recording TxProcessor/BlockTxManager spies: every width 0..33 "
          "(thorough ..130) with every leaf's proof, every relevant subset up to width 6 (thorough 9), every single corruption at every "
          "position for widths 1..9 (thorough ..20): dropped/added/reordered/altered tx with and without adjusted count, count +-1, stream "
